@@ -7,7 +7,7 @@ CONSTANTS
   Kinds = {"Mistake", "Compliment"}
   Elses = {FALSE, TRUE}
   Labels = {"a", "b"}
-  Flds = {"f1", "f2"}
+  Flds = {"f1", "f2", "f3"}
   Corrects = {"F"}
   Valences = {"neg"}
   Scores = {"none"}
